@@ -162,6 +162,22 @@ def rule_OUT(ctx, tier):
             if tgt.startswith("teos::watcher::Watcher::"):
                 if not variant_fact(ctx, hb, bb, "Continue", "check_service_unavailable"):
                     bad = (bb, tgt)
+        # ... and once the Watcher has done the work, the handler answers with it: no error answer (a second gate, a late check)
+        # on a path where the state-changing Watcher call has already returned Ok — a non-200 reply must leave the state unchanged
+        if m in ("register", "add_appointment"):
+            for sw, succ in switch_succ_with(ctx, hb, "variant", "Ok", "watcher::Watcher::" + m):
+                late = []
+                for x in hb.reachable(succ):
+                    t_ = hb.term(x)
+                    if t_["k"] == "call" and ((call_target(t_) or "").endswith("::from_residual") or (call_target(t_) or "").endswith("tonic::Status::new") or (call_target(t_) or "").endswith("check_service_unavailable")):
+                        late.append(x)
+                    for st_ in hb.blocks[x]["s"]:
+                        if st_["k"] == "assign" and st_["d"] == [0] and st_["rv"]["k"] == "agg" and st_["rv"].get("variant") == "Err":
+                            late.append(x)
+                if late:
+                    rr.fail("error-after-work:%s" % m, "public handler `%s` can answer with an error after `Watcher::%s` succeeded (%s): the user is told the request failed while the slot is charged / the appointment stored / the subscription extended, and the signed receipt is thrown away" % (m, m, (call_target(hb.term(late[0])) or "Err(..)").split("::")[-1]), where=hb.line_of(late[0]))
+                else:
+                    rr.ok("%s: after the Watcher succeeded every path answers Ok" % m)
         if bad:
             rr.fail("work-before-503-gate:%s" % m, "`%s` calls `%s` on a path where check_service_unavailable has not succeeded: new work is taken on during an outage" % (m, bad[1]), where=hb.line_of(bad[0]))
         else:
